@@ -1,12 +1,11 @@
 import PkgModel.Rx
-/-! GENERATED by harness/translate.py from the working tree — do not edit.
-source flags: 322  pattern sha: a6d1dc2c5bdc -/
+/-! GENERATED stub: the translator does not support this pattern (pattern is not anchored with ^ and $). -/
 namespace Gen.VersionRx
 open Rx Rx.R
-def supported : Bool := true
-def nClasses : Nat := 43
-def reps : List Nat := [0, 9, 33, 40, 41, 42, 43, 44, 45, 46, 48, 59, 60, 61, 62, 65, 66, 67, 68, 69, 70, 71, 72, 73, 74, 75, 76, 77, 78, 79, 80, 81, 82, 83, 84, 85, 86, 87, 88, 89, 90, 95, 126]
-def kinds : List Nat := [0, 34, 32, 41, 40, 33, 31, 42, 29, 28, 1, 39, 36, 35, 37, 2, 3, 4, 5, 6, 7, 8, 9, 10, 11, 12, 13, 14, 15, 16, 17, 18, 19, 20, 21, 22, 23, 24, 25, 26, 27, 30, 38]
-def ranges : List (Nat × Nat × Nat) := [(0, 8, 0), (9, 13, 1), (14, 31, 0), (32, 32, 1), (33, 33, 2), (34, 39, 0), (40, 40, 3), (41, 41, 4), (42, 42, 5), (43, 43, 6), (44, 44, 7), (45, 45, 8), (46, 46, 9), (47, 47, 0), (48, 57, 10), (58, 58, 0), (59, 59, 11), (60, 60, 12), (61, 61, 13), (62, 62, 14), (63, 64, 0), (65, 65, 15), (66, 66, 16), (67, 67, 17), (68, 68, 18), (69, 69, 19), (70, 70, 20), (71, 71, 21), (72, 72, 22), (73, 73, 23), (74, 74, 24), (75, 75, 25), (76, 76, 26), (77, 77, 27), (78, 78, 28), (79, 79, 29), (80, 80, 30), (81, 81, 31), (82, 82, 32), (83, 83, 33), (84, 84, 34), (85, 85, 35), (86, 86, 36), (87, 87, 37), (88, 88, 38), (89, 89, 39), (90, 90, 40), (91, 94, 0), (95, 95, 41), (96, 96, 0), (97, 97, 15), (98, 98, 16), (99, 99, 17), (100, 100, 18), (101, 101, 19), (102, 102, 20), (103, 103, 21), (104, 104, 22), (105, 105, 23), (106, 106, 24), (107, 107, 25), (108, 108, 26), (109, 109, 27), (110, 110, 28), (111, 111, 29), (112, 112, 30), (113, 113, 31), (114, 114, 32), (115, 115, 33), (116, 116, 34), (117, 117, 35), (118, 118, 36), (119, 119, 37), (120, 120, 38), (121, 121, 39), (122, 122, 40), (123, 125, 0), (126, 126, 42), (127, 1114111, 0)]
-def rx : R := (.cat (.star (.cls 2)) (.cat (.alt .eps (.cls 68719476736)) (.cat (.alt .eps (.cat (.cat (.cls 1024) (.star (.cls 1024))) (.cls 4))) (.cat (.cat (.cls 1024) (.star (.cls 1024))) (.cat (.star (.cat (.cls 512) (.cat (.cls 1024) (.star (.cls 1024))))) (.cat (.alt .eps (.cat (.alt .eps (.cls 2199023256320)) (.cat (.alt (.cat (.cls 32768) (.cat (.cls 67108864) (.cat (.cls 1073741824) (.cat (.cls 4194304) (.cls 32768))))) (.alt (.cls 32768) (.alt (.cat (.cls 65536) (.cat (.cls 524288) (.cat (.cls 17179869184) (.cls 32768)))) (.alt (.cls 65536) (.alt (.cat (.cls 1073741824) (.cat (.cls 4294967296) (.cat (.cls 524288) (.cat (.cls 68719476736) (.cat (.cls 8388608) (.cat (.cls 524288) (.cls 137438953472))))))) (.alt (.cat (.cls 1073741824) (.cat (.cls 4294967296) (.cls 524288))) (.alt (.cls 131072) (.cat (.cls 4294967296) (.cls 131072))))))))) (.cat (.alt .eps (.cls 2199023256320)) (.alt .eps (.cat (.cls 1024) (.star (.cls 1024)))))))) (.cat (.alt .eps (.alt (.cat (.cls 256) (.cat (.cls 1024) (.star (.cls 1024)))) (.cat (.alt .eps (.cls 2199023256320)) (.cat (.alt (.cat (.cls 1073741824) (.cat (.cls 536870912) (.cat (.cls 8589934592) (.cls 17179869184)))) (.alt (.cat (.cls 4294967296) (.cat (.cls 524288) (.cls 68719476736))) (.cls 4294967296))) (.cat (.alt .eps (.cls 2199023256320)) (.alt .eps (.cat (.cls 1024) (.star (.cls 1024))))))))) (.cat (.alt .eps (.cat (.alt .eps (.cls 2199023256320)) (.cat (.cat (.cls 262144) (.cat (.cls 524288) (.cls 68719476736))) (.cat (.alt .eps (.cls 2199023256320)) (.alt .eps (.cat (.cls 1024) (.star (.cls 1024)))))))) (.cat (.alt .eps (.cat (.cls 64) (.cat (.cat (.cls 2199023223808) (.star (.cls 2199023223808))) (.star (.cat (.cls 2199023256320) (.cat (.cls 2199023223808) (.star (.cls 2199023223808)))))))) (.cat (.star (.cls 2)) (.alt .eps (.cls 2))))))))))))
+def supported : Bool := false
+def nClasses : Nat := 1
+def reps : List Nat := [0]
+def kinds : List Nat := [0]
+def ranges : List (Nat × Nat × Nat) := [(0, 1114111, 0)]
+def rx : R := .empty
 end Gen.VersionRx
